@@ -61,6 +61,9 @@ def cells(tier, seed):
     out.append({"w": "ga", "D": 3, "N": 2, "shape": (1, 2, 3), "G": "rot" if tier == "thorough" else "B", "sig": 0, "mode": "inference"})
     out.append({"w": "ga", "D": 2, "N": 3, "G": "B", "sig": 0, "mode": "inference"})
     out.append({"w": "ga", "D": 2, "N": 3, "G": "B", "sig": 1, "mode": "off"})
+    out.append({"w": "ga", "D": 2, "N": 3, "G": "C4", "sig": 0, "mode": "always_then_train"})
+    out.append({"w": "ga", "D": 2, "N": 3, "G": "C2", "sig": 1, "mode": "inference_via_eqx"})
+    out.append({"w": "ga", "D": 2, "N": 3, "G": "B", "sig": 0, "mode": "inference_then_train"})
     out.append({"w": "ga", "D": 2, "N": 3, "G": "B", "sig": 0, "mode": "empty"})
     for G in ("B", "C2") + (("rot",) if tier == "thorough" else ()):
         out.append({"w": "ga", "D": 3, "N": 2, "G": G, "sig": 0, "mode": "always"})
@@ -126,6 +129,16 @@ def _ga(cfg, cx):
         ga = models.GroupAverage(inner, ops, always_average=False, inference=True)
     elif mode == "empty":
         ga = models.GroupAverage(inner, [], always_average=True)
+    elif mode == "always_then_train":
+        # always-average wrapper switched to inference mode and back to training mode the equinox way: averaging stays active
+        import equinox as eqx
+        ga = eqx.nn.inference_mode(eqx.nn.inference_mode(models.GroupAverage(inner, ops, always_average=True)), value=False)
+    elif mode == "inference_via_eqx":
+        import equinox as eqx
+        ga = eqx.nn.inference_mode(models.GroupAverage(inner, ops))
+    elif mode == "inference_then_train":
+        import equinox as eqx
+        ga = eqx.nn.inference_mode(eqx.nn.inference_mode(models.GroupAverage(inner, ops)), value=False)   # averaging off again
     else:
         ga = models.GroupAverage(inner, ops)
     x = {q: S.var_array(f"x{q[0]}{q[1]}", (c,) + shape + (D,) * q[0]) for q, c in in_sig}
@@ -139,7 +152,7 @@ def _ga(cfg, cx):
     ckey = f"G={cfg['G']}:D={D}:sig={cfg['sig']}:mode={mode}" + (f":shape={shape}" if cfg.get("shape") else "")
     base = I.sym_call(run, x)
     cx.structural("output types", set(base) == {q for q, _ in out_sig}, f"{sorted(base)}", key=f"types:{ckey}")
-    if mode in ("off", "empty"):
+    if mode in ("off", "empty", "inference_then_train"):
         exp = stubs.uf_model_apply("f", {q: v.a for q, v in x.items()}, out_sig, shape, D)
         for q in exp:
             cx.equal(f"averaging off: GA(x) == inner(x) [{q}]", base[q], exp[q], key=f"off:{ckey}:{q}")
